@@ -200,7 +200,7 @@ def _crosscheck(c, snames, res):
             for lab, detail in o["failed"]:
                 lab0 = lab.split(" (clause raised")[0]
                 name = f"{sname}/{lab0}"
-                if "ZeroDivisionError" in lab or "complex" in lab or "OverflowError" in lab or "math domain" in lab or "nan" in str(detail) or "inf" in str(detail):
+                if "ZeroDivisionError" in lab or "complex" in lab or "OverflowError" in lab or "math domain" in lab or "nan" in str(detail) or "inf" in str(detail) or "j)" in str(detail):
                     continue
                 if proved.get(name) and len(dis) < 20:
                     dis.append(dict(obligation=name, inputs=vals, detail=str(detail)[:300], label=lab[:200]))
